@@ -162,6 +162,23 @@ pub fn run(ctx: &mut Ctx) {
                 for p in 0..n {
                     for b in &bad {
                         ctx.edge();
+                        // a second operand vector in which the other operands already "decide" (a false first
+                        // comparison, a zero factor, an empty haystack): the malformed operand is an error all the same
+                        if ["<", "<=", ">", ">=", "*", "in", "==", "===", "max", "cat", "merge", "and", "or"].contains(&h) {
+                            let alt: Vec<Value> = match h {
+                                "<" | "<=" => vec![json!(3), json!(2), json!(1)],
+                                ">" | ">=" => vec![json!(1), json!(2), json!(3)],
+                                "in" => vec![json!("a"), json!([]), json!(0)],
+                                "*" => vec![json!(0), json!(0), json!(0)],
+                                _ => vec![json!(null), json!([]), json!("")],
+                            };
+                            let mut args: Vec<Value> = alt.into_iter().take(n).collect();
+                            args[p] = b.clone();
+                            let r = op(h, args);
+                            let o = ctx.exec(&r, &ds[1]);
+                            let (exp, _) = refmodel::reference(&r, &ds[1]);
+                            ctx.record("reject:nested:every-host:deciding-neighbours", &r, &ds[1], &o, if matches!(exp, refmodel::Exp::Err) { verdict(false, false, &o) } else { None });
+                        }
                         let mut args = benign(h, n);
                         args[p] = b.clone();
                         let r = op(h, args);
